@@ -1,6 +1,8 @@
 """C08 - cw1-subkeys: a subkey never spends beyond its unexpired native allowance."""
 from ..engine import show, OPTION
-from ..idioms import dispatch, entry_points, update_base, loaded_from, walk
+from ..idioms import dispatch, entry_points, update_base, loaded_from, walk, stored_entry
+from ..prims import is_rmw, is_rmw_in_place
+from .listing import extract
 from .cw1common import SENDER, BLOCK, items, admin_cond, NB_SUB, NB_SUB_SAT, IS_EXPIRED
 
 ID = "C08"
@@ -52,7 +54,7 @@ def run(ctx):
                     prob = check_spend(p, i, e)
                     ctx.ob("R08.1", key + "/spend in %s" % e.site[2], prob is None, detail=prob, sites=[e.site],
                            sample={"spend": show(e.value)[:300]})
-                    ctx.ob("R08.2", key + "/spend in %s" % e.site[2], e.op == "update" and bool(e.loops), sites=[e.site],
+                    ctx.ob("R08.2", key + "/spend in %s" % e.site[2], is_rmw_in_place(e) and bool(e.loops), sites=[e.site],
                            detail="spend is not an atomic update inside the per-message loop (op=%s, in loop=%s)" % (e.op, bool(e.loops)),
                            sample={"op": e.op, "loop": str(e.loops[-1][:2]) if e.loops else None})
                 ctx.ob("R08.3", key + "/non-admin", True, trivial=not writes, sample={"writes": [repr(e)[:160] for _, e in writes]})
@@ -71,7 +73,7 @@ def run(ctx):
                         prob = check_increase(p, i, e)
                         ctx.ob("R08.5", key + "/form", prob is None, detail=prob, sites=[e.site], sample={"value": show(e.value)[:300]})
             if variant == "DecreaseAllowance":
-                upd = [(i, e) for i, e in writes if e.item == ALW and e.op == "update"]
+                upd = [(i, e) for i, e in writes if e.item == ALW and is_rmw(e) and e.op != "remove"]
                 rem = [(i, e) for i, e in writes if e.item == ALW and e.op == "remove"]
                 for i, e in upd:
                     n_dec += 1
@@ -95,10 +97,11 @@ def run(ctx):
 
 
 def check_spend(p, i, e):
-    if e.op != "update":
-        return "spend is not an update"
+    if not is_rmw_in_place(e) or e.op == "remove":
+        return "spend is not a read-modify-write of the stored entry within the iteration that relays the message"
     base, fields = update_base(e.value)
-    if base != ("vfield", e.old, "Some", "0"):
+    old, present = stored_entry(e, p)
+    if base != old:
         return "spend stores a value not derived from the stored entry: %s" % show(e.value)[:200]
     if set(fields) != {"balance"}:
         return "spend changes fields %s (only `balance` may change)" % sorted(fields)
@@ -112,7 +115,7 @@ def check_spend(p, i, e):
     amt = b[1][2][1]
     if not (amt[0] == "vfield" and amt[2] == "Send" and amt[3] == "amount"):
         return "subtracted amount %s is not the Bank::Send message's coin list" % show(amt)[:160]
-    if not any(c[0] == e.old and c[1] == "Some" for c in p.conds):
+    if not present:
         return "spend succeeds without a stored allowance"
     exp = ("field", base, "expires")
     if not any(c[0][0] == "call" and c[0][1] == IS_EXPIRED and c[0][2] == (exp, BLOCK) and c[1] is False for c in p.conds):
@@ -121,10 +124,10 @@ def check_spend(p, i, e):
 
 
 def check_increase(p, i, e):
-    if e.op != "update":
-        return "increase is not an update"
+    if not is_rmw(e) or e.op == "remove":
+        return "increase is not a read-modify-write of the stored entry"
     base, fields = update_base(e.value)
-    old = ("vfield", e.old, "Some", "0")
+    old, _ = stored_entry(e, p)
     b = fields.get("balance")
     if not b or not (b[0] == "bin" and b[1] == "nb_add"):
         return "balance is not (base balance += amount): %s" % show(b)[:200]
@@ -157,10 +160,10 @@ def check_increase(p, i, e):
 
 def check_decrease(p, i, e, rem):
     base, fields = update_base(e.value)
-    old = ("vfield", e.old, "Some", "0")
+    old, present = stored_entry(e, p)
     if base != old:
         return "decrease stores a value not derived from the stored entry"
-    if not any(c[0] == e.old and c[1] == "Some" for c in p.conds):
+    if not present:
         return "decrease succeeds without a stored allowance"
     exp = ("field", old, "expires")
     if not any(c[0][0] == "call" and c[0][1] == IS_EXPIRED and c[0][2] == (exp, BLOCK) and c[1] is False for c in p.conds):
@@ -213,6 +216,26 @@ def check_queries(ctx, eps, ALW):
     n = 0
     for p in groups.get("AllAllowances", []):
         if p.is_err():
+            continue
+        L = extract(p)
+        if L is None:
+            continue
+        if L.loop is not None and L.acc is not None:
+            # loop form: the page is bounded by what was pushed (`len < n` guard), and an element is pushed iff unexpired
+            n += 1
+            good, why = True, None
+            if L.page_how != "guard":
+                good, why = False, "the iterator is cut with take() before the loop skips expired entries"
+            elif L.took:
+                dec = [c for c in p.conds if c[0][0] == "call" and c[0][1] == IS_EXPIRED and c[0][2][1] == BLOCK
+                       and any(y == L.elem for y in walk(c[0][2][0]))]
+                if not dec:
+                    good, why = False, "an entry is listed/skipped without an is_expired(entry.expires, env.block) decision"
+                elif L.pushed is not None and dec[0][1] is not False:
+                    good, why = False, "an expired allowance is listed"
+                elif L.pushed is None and dec[0][1] is not True:
+                    good, why = False, "an unexpired allowance is skipped"
+            ctx.ob("R08.6", "query/AllAllowances", good, detail=why, sample={"loop": str(L.loop[:2]), "page": show(L.page)[:80] if L.page else None})
             continue
         takes = [x for x in walk(p.ret) if x[0] == "call" and x[1].endswith("Iterator::take")]
         for t in takes:
